@@ -80,13 +80,13 @@ def srceq_check(engine_names, rep):
 def find_cex(d):
     """arguments (machine words, inside the guard's domain) on which the fresh and the reference term differ"""
     ps = d["params"]; n = len(ps)
-    grid = "cex_grid" if n <= 3 else "cex_grid_small"
+    grid = "cex_grid" if n <= 2 else "cex_grid_small"
     if n > 6: return None
     dom = d.get("dom") or "true"
     probe = os.path.join(COQ, "Generated", "Probe_cex_%d.v" % os.getpid())
     open(probe, "w").write("From CC Require Import Base.Prelude Base.SrcEq Generated.Constants.\nLocal Open Scope N_scope. Local Open Scope bool_scope.\n"
-        "Eval vm_compute in find_cex %d %s (fun l => match l with [%s] => negb %s || Bool.eqb %s %s | _ => true end).\n"
-        % (n, grid, "; ".join(ps), dom, d["term"], d["ref"]))
+        "Eval vm_compute in find_cex %d %s (fun l => match l with [%s] => negb %s || %s %s %s | _ => true end).\n"
+        % (n, grid, "; ".join(ps), dom, "N.eqb" if d.get("kind") == "N" else "Bool.eqb", d["term"], d["ref"]))
     rc, out = sh(["coqc", "-Q", ".", "CC", probe], cwd=COQ, timeout=300)
     for ext in ("v", "vo", "vok", "vos", "glob"):
         try: os.unlink(probe[:-1] + ext)
